@@ -41,6 +41,25 @@ pub struct Cfg {
     pub profile: Profile,
     pub max_nodes: usize,
     pub start: u64,
+    /// Commands replayed verbatim at the start of every history (`--prefix`).
+    pub prefix: Vec<String>,
+}
+
+/// Reads a one-history ops file for `--prefix`: comment and blank lines, a leading `hist N` and a
+/// trailing `end` are dropped.
+pub fn read_prefix(text: &str) -> Vec<String> {
+    let mut v: Vec<String> = text
+        .lines()
+        .map(|l| l.trim_end_matches('\r').to_string())
+        .filter(|l| !l.starts_with('#') && !l.trim().is_empty())
+        .collect();
+    if v.first().map_or(false, |l| l == "hist" || l.starts_with("hist ")) {
+        v.remove(0);
+    }
+    if v.last().map_or(false, |l| l == "end") {
+        v.pop();
+    }
+    v
 }
 
 /// Callbacks around every executed command (used by `selfcheck`).
@@ -482,6 +501,21 @@ impl<H: Hooks> Gen<H> {
         self.next_v = 1;
         self.stats.histories += 1;
         self.emit(&format!("hist {}", idx))?;
+        // `--prefix`: replay verbatim, then continue from the state reached. Fresh payload
+        // serials start above every value the prefix used.
+        for i in 0..self.cfg.prefix.len() {
+            let cmd = self.cfg.prefix[i].clone();
+            let t: Vec<&str> = cmd.split(' ').collect();
+            let val = match t[0] {
+                "new" => t.get(1),
+                "appv" | "wr" => t.get(2),
+                _ => None,
+            };
+            if let Some(x) = val.and_then(|x| x.parse::<u64>().ok()) {
+                self.next_v = self.next_v.max(x.saturating_add(1));
+            }
+            self.emit(&cmd)?;
+        }
         let every = if self.cfg.profile == Profile::Iters { 4.0 } else { 8.0 };
         let mut steps = 0;
         let mut wf = true;
